@@ -38,6 +38,24 @@ type kindRunResult struct {
 	paths     []kindPath
 	truncated bool
 	uses      map[*ssa.Convert][]convUse
+	// census (kindcensus.go): the integer conversions executed on some path of
+	// this kind with the union of their operand sets (nil = not evaluable), and
+	// the functions entered
+	convs   map[*ssa.Convert]ISet
+	convTop map[*ssa.Convert]bool
+	entered map[*ssa.Function]bool
+	// library calls executed on some path of this kind -> key of the term of their
+	// first argument (the receiver of a reflect setter), and the root's returns
+	libCalls map[*ssa.Call]string
+	rets     []kindRet
+}
+
+// kindRet: one return of the explored root on a path of the kind.
+type kindRet struct {
+	Ret    *ssa.Return
+	Err    *Term // the error result (nil when the root has none)
+	Origin *Term // the recorded call the error is the result of, if any
+	Armed  bool  // a boundary (wire reader / writer) was met before
 }
 
 type kindRunKey struct {
@@ -66,10 +84,21 @@ func (w *World) kindRun(fn *ssa.Function, k int64, side string) *kindRunResult {
 	if side == "enc" {
 		bounds = w.writerBoundaries()
 	} else {
-		bounds = w.readerBoundaries()
+		bounds = map[*ssa.Function]string{}
+		for f, l := range w.readerBoundaries() {
+			bounds[f] = l
+		}
+		// the field dispatch hands the stream to value readers: a function that obtains
+		// a fresh tag itself reads one value of its own production (readMap, the
+		// struct-field dispatcher, …) and is not part of the kind dispatch
+		for _, f := range w.SrcFuncs() {
+			if _, isB := bounds[f]; !isB && f != fn && f.Parent() == nil && w.readsFreshTag(f) {
+				bounds[f] = "reader:" + w.canonName(f)
+			}
+		}
 	}
 	delete(bounds, fn)
-	res := &kindRunResult{uses: map[*ssa.Convert][]convUse{}}
+	res := &kindRunResult{uses: map[*ssa.Convert][]convUse{}, convs: map[*ssa.Convert]ISet{}, convTop: map[*ssa.Convert]bool{}, entered: map[*ssa.Function]bool{fn: true}, libCalls: map[*ssa.Call]string{}}
 	var px *PX
 	checkUse := func(t *Term, st *pxState, depth int) {}
 	checkUse = func(t *Term, st *pxState, depth int) {
@@ -108,6 +137,19 @@ func (w *World) kindRun(fn *ssa.Function, k int64, side string) *kindRunResult {
 	}
 	px = w.newPX(pxHooks{
 		onInstr: func(fr *pxFrame, in ssa.Instruction, st *pxState) bool {
+			res.entered[fr.fn] = true
+			if cv, isCv := in.(*ssa.Convert); isCv {
+				if _, _, ok1 := intTypeInfo(w, cv.X.Type()); ok1 {
+					if _, _, ok2 := intTypeInfo(w, cv.Type()); ok2 {
+						if src, _ := px.eval(cv.X, fr, st); src == nil {
+							res.convTop[cv] = true
+						} else {
+							res.convs[cv] = res.convs[cv].Union(src)
+						}
+					}
+				}
+				return true
+			}
 			c, ok := in.(*ssa.Call)
 			if !ok {
 				return true
@@ -120,7 +162,16 @@ func (w *World) kindRun(fn *ssa.Function, k int64, side string) *kindRunResult {
 				st.vals["__kind"] = zeroTerm(types.Typ[types.Int])
 				return false
 			}
-			sc := c.Call.StaticCallee()
+			sc := px.calleeOf(c, fr, st) // static, or through a function value the path knows
+			if sc != nil && !w.inPkg(sc) && len(c.Call.Args) > 0 {
+				// every distinct first-argument term the site is executed with (bounded)
+				k := px.term(c.Call.Args[0], fr, st).key
+				if prev, seen := res.libCalls[c]; !seen {
+					res.libCalls[c] = k
+				} else if !strings.Contains(prev, k) && len(prev) < 4000 {
+					res.libCalls[c] = prev + " | " + k
+				}
+			}
 			label, isB := "", false
 			if sc != nil {
 				label, isB = bounds[sc]
@@ -158,6 +209,15 @@ func (w *World) kindRun(fn *ssa.Function, k int64, side string) *kindRunResult {
 			return true
 		},
 		onReturn: func(fr *pxFrame, ret *ssa.Return, results []*Term, st *pxState) {
+			if _, pinned := st.vals["__kind"]; pinned {
+				kr := kindRet{Ret: ret}
+				_, kr.Armed = st.vals["__arm"]
+				if idx := errIndex(fn.Signature); idx >= 0 && idx < len(results) {
+					kr.Err = results[idx]
+					kr.Origin = st.originOf(results[idx])
+				}
+				res.rets = append(res.rets, kr)
+			}
 			if _, done := st.vals["__arm"]; done {
 				return
 			}
